@@ -324,7 +324,47 @@ func (fx *FuncCtx) evalCompositeLit(st *State, x *ast.CompositeLit) Val {
 	return nil
 }
 
+// implFor maps the BLAS / LAPACK interface packages to their default
+// implementation packages (assumption A10).
+var implFor = map[string]string{
+	"gonum.org/v1/gonum/blas":   "gonum.org/v1/gonum/blas/gonum",
+	"gonum.org/v1/gonum/lapack": "gonum.org/v1/gonum/lapack/gonum",
+}
+
 func (fx *FuncCtx) callInterface(st *State, sel *ast.SelectorExpr, s *types.Selection, call *ast.CallExpr) Val {
+	recvT := s.Recv()
+	if p, ok := recvT.(*types.Pointer); ok {
+		recvT = p.Elem()
+	}
+	if named, ok := recvT.(*types.Named); ok && named.Obj().Pkg() != nil {
+		if target, ok := implFor[named.Obj().Pkg().Path()]; ok {
+			pi := fx.eng.pkgs[target]
+			if pi == nil {
+				fx.unsupportedf("implementation package %s not loaded", target)
+			}
+			obj := pi.pkg.Types.Scope().Lookup("Implementation")
+			if obj == nil {
+				fx.unsupportedf("no Implementation type in %s", target)
+			}
+			m, _, _ := types.LookupFieldOrMethod(obj.Type(), true, pi.pkg.Types, s.Obj().Name())
+			callee, ok := m.(*types.Func)
+			if !ok {
+				fx.unsupportedf("no method %s on %s.Implementation", s.Obj().Name(), target)
+			}
+			fx.eval(st, sel.X) // receiver expression (no effects expected)
+			recv := fx.zeroVal(obj.Type())
+			sig := callee.Type().(*types.Signature)
+			args := fx.evalArgs(st, sig, call)
+			qn := funcQName(callee)
+			if con := fx.eng.contractFor(qn); con != nil && !con.Inline {
+				return fx.applyContract(st, con, callee, recv, sig.Recv().Type(), args, call)
+			}
+			if fd, pkg := fx.eng.funcDecl(callee); fd != nil && fd.Body != nil {
+				return fx.inlineCall(st, callee, fd, pkg, recv, args, call)
+			}
+			fx.unsupportedf("call to %s: no contract and no body", qn)
+		}
+	}
 	fx.unsupportedf("interface method call %s", fx.src(call))
 	return nil
 }
